@@ -379,7 +379,7 @@ class C04(Proto):
 class C05(Proto):
     id = "C05"
     lean_module = "Props.C05"
-    streams = [("C05", None, 0.5), ("C03", "knxdrv", 0.25), ("C04", "knxdrv", 0.25), ("C03rt", None, 0.05)]
+    streams = [("C05", None, 0.5), ("C03", "knxdrv", 0.25), ("C04", "knxdrv", 0.25), ("C03rt", None, 0.05), ("C17rt", None, 0.05)]
     budgets = {"quick": 300, "thorough": 3000}
     rule = ("composed-system walks under virtual time: the real client against an in-harness rule-following gateway over a "
             "network that loses (0..40 %), duplicates (0..30 %, up to 3 copies), delays (up to 2 resend intervals + 5 ms, so "
@@ -527,7 +527,9 @@ class C16(Prop):
             "sentinel; Send of generated services observed as one datagram each; 1..8 goroutines x 40 Sends on one TCP "
             "socket re-parsed by the peer; Close with unread frames waiting (goroutine and channel end); the connect "
             "request's HPAI for UDP/TCP x SendLocalAddress; the routing socket (multicast, loopback on, a second group "
-            "member as peer): every Send one datagram of exactly the frame after longer / shorter / equal ones, 4 "
+            "member as peer): every Send one datagram of exactly the frame after longer / shorter / equal ones; a TCP peer "
+            "that does not read for 2.6 s while 30 000-octet frames are sent and then reads everything (the stream must be "
+            "the frames of the successful Sends, back to back); 4 "
             "concurrent senders, datagrams from the peer surfaced once and in order, Close ends Inbound. "
             "distinct = operation lines.")
 
